@@ -192,6 +192,10 @@ def perturb(names, v, st_names, rnd, quick):
         out.append(("dup:" + names[k], names[:k + 1] + [names[k]] + names[k + 1:]))
         out.append(("zrun", names + ["ZZ1", "ZZ2", "ZZ1"]))
         out.append(("swap", names[:1] + list(reversed(names[1:]))))
+    # a segment the version defines WITHOUT fields (withdrawn: QRD, QRF, URD, URS from 2.7 on), sent with content
+    fieldless = [s for s in T.seg_names(v) if len(s) == 3 and s not in st_names and T.seg_rows(v, s) == []]
+    if fieldless:
+        out.append(("fieldless:" + fieldless[0], names + [rnd.choice(fieldless)]))
     # the same unlisted name several times: after the header, and before each of the last members (inside open groups)
     must = []
     if len(names) > 2:
@@ -204,7 +208,10 @@ def perturb(names, v, st_names, rnd, quick):
             must.append(("same_unlisted:" + unl, seq))
     if not quick:
         return out + must
-    return rnd.sample(out, min(len(out), 3)) + must[:1] + (rnd.sample(must[1:], 1) if len(must) > 1 and rnd.random() < 0.5 else [])
+    if fieldless:
+        must = must[:1] + [out[-1]] + must[1:]
+        out = out[:-1]
+    return rnd.sample(out, min(len(out), 3)) + must[:2] + (rnd.sample(must[1:], 1) if len(must) > 1 and rnd.random() < 0.5 else [])
 
 
 def rich_line(name, v, rnd):
